@@ -113,6 +113,7 @@ class KaniUnitFile:
                     "tier": kv.get("tier", "quick"),
                     "fns": [f for f in kv.get("fns", "").split(",") if f],
                     "bound": kv.get("bound", "").replace("_", " ") or None,
+                    "optional": kv.get("optional", "0") == "1",
                     "unit": self.name,
                 }
                 continue
@@ -311,7 +312,7 @@ def run_units(prop, unit_files, tier, jobs=None, harness_timeout=None, only=None
                     hs[h] = meta
             if not hs:
                 continue
-            j = jobs or max(2, min(NCPU - 2, len(hs)))
+            j = jobs or max(2, min(int(os.environ.get("VERIF_JOBS", NCPU - 2)), len(hs)))
             to = harness_timeout or (600 if tier == "quick" else 3600)
             cmd = ["cargo", "kani", "-p", crate] + KANI_FLAGS + [
                 "--output-format=terse", "-j", str(j), "--harness-timeout", "%ds" % to, "--exact"]
@@ -354,6 +355,9 @@ def run_units(prop, unit_files, tier, jobs=None, harness_timeout=None, only=None
                     if not u.bound:
                         u.bound = meta["bound"]
                 if h not in by_short:
+                    if meta.get("optional"):
+                        u.extra.setdefault("attempted_not_completed", []).append("%s: no result" % h)
+                        continue
                     u.undecided.append("harness %s produced no result" % h)
                     undecided.append("harness %s produced no result (see %s)" % (h, logp))
                     continue
@@ -415,6 +419,9 @@ def run_units(prop, unit_files, tier, jobs=None, harness_timeout=None, only=None
                              "output": r["raw"]}
                         u.failures.append(f)
                         all_fail.append(f)
+                elif meta.get("optional"):
+                    # best-effort harness (thorough tier): a resource limit is recorded, changes no claim
+                    u.extra.setdefault("attempted_not_completed", []).append("%s: %s" % (h, r["status"]))
                 else:
                     undecided.append("harness %s: %s (timeout/resource; see %s)" % (h, r["status"], logp))
             units += list(per_unit.values())
